@@ -132,7 +132,8 @@ prop(
           "fileno/allocation between entry and return; valid => not EINVAL, and pipes/null-device opens/path opens (with access mode)/FILE lookups/parent pipe ends exactly as "
           "the effective redirects demand. Non-trivial: at least two independent rules involved (type set, field set, shorthand, input form, fork form). "
           "Distinct: cell index (sweep cells are unique by construction; random cases are not counted)."),
-    essential=dict(quick=["sweep-valid-streams", "sweep-cube", "sweep-plane", "sweep-forms", "random", "model-valid", "model-invalid", "model-unspecified"]),
+    essential=dict(quick=["sweep-valid-streams", "sweep-cube", "sweep-plane", "sweep-forms", "random", "model-valid", "model-invalid", "model-unspecified"],
+                   thorough=["sweep-valid-streams", "sweep-cube", "sweep-forms", "random", "model-valid", "model-invalid", "model-unspecified"]),
     exhaustive=dict(quick=False, thorough=True),
     exhaustive_scope="thorough: every cell of the redirect cube x shorthands (10 903 552 cells) with input/fork defaults; input and fork forms on a 1/16 stride",
     assumptions=[
